@@ -104,8 +104,9 @@ Proof.
   destruct k, h, s; cbn; intros H; try discriminate; repeat split; try congruence; tauto.
 Qed.
 
-Definition chk_write (g : gate) (p : pgate) (c : cx) : bool :=
-  negb (is_class g ClWrite) || negb (not_open c) || negb (through p c) || holds_rw_b c.
+(* (the per-RPC part of every check is evaluated once per RPC, outside the sweep over contexts) *)
+Definition chk_write (g : gate) (p : pgate) : cx -> bool :=
+  if is_class g ClWrite then (fun c => negb (not_open c) || negb (through p c) || holds_rw_b c) else (fun _ => true).
 
 Lemma write_sweep : sweep chk_write = true.
 Proof. vm_compute. reflexivity. Qed.
@@ -115,8 +116,8 @@ Lemma write_requires_rw :
               decide g c = Through -> holds_rw c.
 Proof.
   intros g c Hg Hc Ho Hd. pose proof (sweep_all _ write_sweep g c Hg) as H.
-  unfold chk_write in H. rewrite (is_class_of _ _ Hc), (not_open_of _ Ho), (through_of _ _ Hd) in H.
-  apply holds_rw_ok. exact H.
+  unfold chk_write in H. rewrite (is_class_of _ _ Hc) in H. cbv beta in H.
+  rewrite (not_open_of _ Ho), (through_of _ _ Hd) in H. apply holds_rw_ok. exact H.
 Qed.
 
 Example write_premises_satisfiable :
@@ -144,8 +145,8 @@ Proof.
   destruct k, h, s; cbn; intros H; try discriminate; repeat split; try congruence; tauto.
 Qed.
 
-Definition chk_read (g : gate) (p : pgate) (c : cx) : bool :=
-  negb (is_class g ClRead) || negb (not_open c) || negb (through p c) || holds_r_b c.
+Definition chk_read (g : gate) (p : pgate) : cx -> bool :=
+  if is_class g ClRead then (fun c => negb (not_open c) || negb (through p c) || holds_r_b c) else (fun _ => true).
 
 Lemma read_sweep : sweep chk_read = true.
 Proof. vm_compute. reflexivity. Qed.
@@ -155,8 +156,8 @@ Lemma read_requires_r :
               decide g c = Through -> holds_r c.
 Proof.
   intros g c Hg Hc Ho Hd. pose proof (sweep_all _ read_sweep g c Hg) as H.
-  unfold chk_read in H. rewrite (is_class_of _ _ Hc), (not_open_of _ Ho), (through_of _ _ Hd) in H.
-  apply holds_r_ok. exact H.
+  unfold chk_read in H. rewrite (is_class_of _ _ Hc) in H. cbv beta in H.
+  rewrite (not_open_of _ Ho), (through_of _ _ Hd) in H. apply holds_r_ok. exact H.
 Qed.
 
 Example read_premises_satisfiable :
@@ -198,10 +199,11 @@ Proof.
   destruct cl, k, h, s, t; cbn; intros H; try discriminate; split; try congruence; tauto.
 Qed.
 
-Definition chk_admin (g : gate) (p : pgate) (c : cx) : bool :=
+Definition chk_admin (g : gate) (p : pgate) : cx -> bool :=
   match class_of g with
-  | Some cl => negb (is_admin_class cl) || negb (not_open c) || negb (through p c) || holds_admin_b cl c
-  | None => true
+  | Some cl => if is_admin_class cl then (fun c => negb (not_open c) || negb (through p c) || holds_admin_b cl c)
+               else (fun _ => true)
+  | None => (fun _ => true)
   end.
 
 Lemma admin_sweep : sweep chk_admin = true.
@@ -212,8 +214,8 @@ Lemma admin_requires_admin :
                  cx_cfg c <> CfgOpen -> decide g c = Through -> holds_admin cl c.
 Proof.
   intros g c cl Hg Hc Ha Ho Hd. pose proof (sweep_all _ admin_sweep g c Hg) as H.
-  unfold chk_admin in H. rewrite Hc, Ha, (not_open_of _ Ho), (through_of _ _ Hd) in H.
-  apply holds_admin_ok. exact H.
+  unfold chk_admin in H. rewrite Hc, Ha in H. cbv beta in H.
+  rewrite (not_open_of _ Ho), (through_of _ _ Hd) in H. apply holds_admin_ok. exact H.
 Qed.
 
 Example admin_premises_satisfiable :
@@ -234,11 +236,12 @@ Definition needs_login (cl : class) : bool := match cl with ClPublic | ClCred =>
 Definition stale_second_login (c : cx) : bool :=
   hdr_eqb (cx_hdr c) HTok2 && (sstate_eqb (cx_st c) SDeact || sstate_eqb (cx_st c) SReperm).
 
-Definition chk_invalid_partial (g : gate) (p : pgate) (c : cx) : bool :=
+Definition chk_invalid_partial (g : gate) (p : pgate) : cx -> bool :=
   match class_of g with
-  | Some cl => negb (needs_login cl) || negb (cfg_eqb (cx_cfg c) CfgAuth) || negb (invalid_b c) ||
-               stale_second_login c || negb (through p c)
-  | None => true
+  | Some cl => if needs_login cl
+               then (fun c => negb (cfg_eqb (cx_cfg c) CfgAuth) || negb (invalid_b c) || stale_second_login c || negb (through p c))
+               else (fun _ => true)
+  | None => (fun _ => true)
   end.
 
 Lemma invalid_sweep : sweep chk_invalid_partial = true.
@@ -251,7 +254,7 @@ Lemma invalid_session_refused_partial :
                  decide g c = Refused.
 Proof.
   intros g c cl Hg Hc Hn Ho Hi Hs. pose proof (sweep_all _ invalid_sweep g c Hg) as H.
-  unfold chk_invalid_partial in H. rewrite Hc, Hn, Ho, Hs in H.
+  unfold chk_invalid_partial in H. rewrite Hc, Hn in H. cbv beta in H. rewrite Ho, Hs in H.
   assert (invalid_b c = true) as Hib.
   { unfold invalid_b. destruct Hi as [-> | Hi]; [reflexivity|].
     destruct (cx_st c); try congruence; apply orb_true_r. }
@@ -279,8 +282,10 @@ Proof.
 Qed.
 
 (* deactivated users cannot obtain a new credential *)
-Definition chk_cred (g : gate) (p : pgate) (c : cx) : bool :=
-  negb (is_class g ClCred) || negb (cfg_eqb (cx_cfg c) CfgAuth) || negb (sstate_eqb (cx_st c) SDeact) || negb (through p c).
+Definition chk_cred (g : gate) (p : pgate) : cx -> bool :=
+  if is_class g ClCred
+  then (fun c => negb (cfg_eqb (cx_cfg c) CfgAuth) || negb (sstate_eqb (cx_st c) SDeact) || negb (through p c))
+  else (fun _ => true).
 Lemma cred_sweep : sweep chk_cred = true.
 Proof. vm_compute. reflexivity. Qed.
 
@@ -289,19 +294,18 @@ Lemma deactivated_user_cannot_login :
               decide g c = Refused.
 Proof.
   intros g c Hg Hc Ho Hs. pose proof (sweep_all _ cred_sweep g c Hg) as H.
-  unfold chk_cred in H. rewrite (is_class_of _ _ Hc), Ho, Hs in H. cbn in H.
+  unfold chk_cred in H. rewrite (is_class_of _ _ Hc) in H. cbv beta in H. rewrite Ho, Hs in H. cbn in H.
   apply not_through. apply negb_true_iff. exact H.
 Qed.
 
 (* selecting a database needs some permission on it *)
 Definition holds_any_b (c : cx) : bool :=
   kind_eqb (cx_kind c) KSys || (dbsel_eqb (cx_tgt c) DOwn && negb (kind_eqb (cx_kind c) KNone)).
-Definition chk_select (g : gate) (p : pgate) (c : cx) : bool :=
-  match class_of g with
-  | Some ClSelect | Some ClCred => negb (cfg_eqb (cx_cfg c) CfgAuth) || negb (through p c) || holds_any_b c ||
-                                   (String.eqb (gt_rpc g) "Login")
-  | _ => true
-  end.
+Definition selects (g : gate) : bool :=
+  (is_class g ClSelect || is_class g ClCred) && negb (String.eqb (gt_rpc g) "Login").
+Definition chk_select (g : gate) (p : pgate) : cx -> bool :=
+  if selects g then (fun c => negb (cfg_eqb (cx_cfg c) CfgAuth) || negb (through p c) || holds_any_b c)
+  else (fun _ => true).
 Lemma select_sweep : sweep chk_select = true.
 Proof. vm_compute. reflexivity. Qed.
 
@@ -312,10 +316,11 @@ Lemma select_requires_permission :
 Proof.
   intros g c Hg Hc Hl Ho Hd. pose proof (sweep_all _ select_sweep g c Hg) as H.
   unfold chk_select in H.
-  assert (String.eqb (gt_rpc g) "Login" = false) as Hl' by (apply String.eqb_neq; exact Hl).
-  rewrite Hl', Ho, (through_of _ _ Hd) in H.
-  assert (holds_any_b c = true) as Hb.
-  { destruct Hc as [Hc|Hc]; rewrite Hc in H; cbn in H; rewrite orb_false_r in H; exact H. }
+  assert (selects g = true) as Hsel.
+  { unfold selects. apply String.eqb_neq in Hl. rewrite Hl.
+    destruct Hc as [Hc|Hc]; rewrite (is_class_of _ _ Hc); cbn; try rewrite orb_true_r; reflexivity. }
+  rewrite Hsel in H. cbv beta in H. rewrite Ho, (through_of _ _ Hd) in H.
+  assert (holds_any_b c = true) as Hb by exact H.
   clear H. destruct c as [cf k h s t st]. unfold holds_any_b in Hb. cbn in *.
   destruct k, t; cbn in Hb; try discriminate; try (left; reflexivity); right; split; congruence.
 Qed.
@@ -344,8 +349,10 @@ Proof. vm_compute. reflexivity. Qed.
 Definition in_known (g : gate) : bool :=
   existsb (fun r => String.eqb (fst r) (gt_svc g) && String.eqb (snd r) (gt_rpc g)) known_system_write_paths.
 
-Definition chk_system_partial (g : gate) (p : pgate) (c : cx) : bool :=
-  negb (mutates g) || in_known g || negb (not_open c) || negb (on_system c) || negb (through p c).
+Definition chk_system_partial (g : gate) (p : pgate) : cx -> bool :=
+  if mutates g && negb (in_known g)
+  then (fun c => negb (not_open c) || negb (on_system c) || negb (through p c))
+  else (fun _ => true).
 Lemma system_sweep : sweep chk_system_partial = true.
 Proof. vm_compute. reflexivity. Qed.
 
@@ -354,7 +361,8 @@ Lemma systemdb_not_writable_partial :
               cx_cfg c <> CfgOpen -> cx_sel c = DSystem -> decide g c = Refused.
 Proof.
   intros g c Hg Hm Hk Ho Hs. pose proof (sweep_all _ system_sweep g c Hg) as H.
-  unfold chk_system_partial in H. rewrite Hm, Hk, (not_open_of _ Ho) in H.
+  unfold chk_system_partial in H. rewrite Hm, Hk in H. cbv beta iota in H. cbn [andb negb] in H.
+  rewrite (not_open_of _ Ho) in H.
   unfold on_system in H. rewrite Hs in H. cbn in H. apply not_through. apply negb_true_iff. exact H.
 Qed.
 
@@ -376,8 +384,8 @@ Proof.
 Qed.
 
 (* database life-cycle RPCs never operate on the system database *)
-Definition chk_dbmgmt (g : gate) (p : pgate) (c : cx) : bool :=
-  negb (dbmgmt g) || negb (dbsel_eqb (cx_tgt c) DSystem) || negb (through p c).
+Definition chk_dbmgmt (g : gate) (p : pgate) : cx -> bool :=
+  if dbmgmt g then (fun c => negb (dbsel_eqb (cx_tgt c) DSystem) || negb (through p c)) else (fun _ => true).
 Lemma dbmgmt_sweep : sweep chk_dbmgmt = true.
 Proof. vm_compute. reflexivity. Qed.
 
@@ -385,5 +393,5 @@ Lemma systemdb_not_manageable :
   forall g c, In g gates -> dbmgmt g = true -> cx_tgt c = DSystem -> decide g c = Refused.
 Proof.
   intros g c Hg Hm Hs. pose proof (sweep_all _ dbmgmt_sweep g c Hg) as H.
-  unfold chk_dbmgmt in H. rewrite Hm, Hs in H. cbn in H. apply not_through. apply negb_true_iff. exact H.
+  unfold chk_dbmgmt in H. rewrite Hm in H. cbv beta in H. rewrite Hs in H. cbn in H. apply not_through. apply negb_true_iff. exact H.
 Qed.
